@@ -19,6 +19,8 @@ pub struct Menu {
     pub alias_patterns: bool,
     /// also generate matches whose last arm is a wildcard/variable default
     pub default_arms: bool,
+    /// also split a constructor's arm into several arms by a nested constructor pattern
+    pub nested_patterns: bool,
 }
 
 pub type Ctx = Vec<(Var, VT)>;
@@ -97,6 +99,56 @@ impl Gen {
             }
             | VT::Named(l, t) => out.push(Pat::Named(l.clone(), Box::new(Pat::Var(base, (**t).clone())))),
             | VT::Unit => out.push(Pat::Unit),
+            | _ => {}
+        }
+        out
+    }
+
+    /// Ways to cover a payload of type `pt` by several refutable patterns: one pattern per constructor
+    /// of the first non-recursive data component (elsewhere variables).
+    fn nested_splits(&self, ctx: &Ctx, pt: &VT) -> Vec<Vec<Pat>> {
+        let base = ctx.len() as Var;
+        let mut out = vec![];
+        let split_data = |d: usize, data: &Vec<DataDecl>| -> Option<Vec<Pat>> {
+            if data[d].recursive || data[d].ctors.iter().any(|(_, t)| *t != VT::Unit) {
+                return None;
+            }
+            Some((0..data[d].ctors.len()).map(|k| Pat::Ctor(d, k, Box::new(Pat::Unit))).collect())
+        };
+        match pt {
+            | VT::Data(d2) => {
+                if let Some(ps) = split_data(*d2, &self.data) {
+                    out.push(ps);
+                }
+            }
+            | VT::Prod(cs) => {
+                for (i, c) in cs.iter().enumerate() {
+                    if let VT::Data(d2) = c {
+                        if let Some(ps) = split_data(*d2, &self.data) {
+                            let group: Vec<Pat> = ps
+                                .into_iter()
+                                .map(|inner| {
+                                    let mut next = base;
+                                    let items: Vec<Pat> = cs
+                                        .iter()
+                                        .enumerate()
+                                        .map(|(j, cj)| {
+                                            if j == i {
+                                                inner.clone()
+                                            } else {
+                                                next += 1;
+                                                Pat::Var(next - 1, cj.clone())
+                                            }
+                                        })
+                                        .collect();
+                                    Pat::Tuple(items)
+                                })
+                                .collect();
+                            out.push(group);
+                        }
+                    }
+                }
+            }
             | _ => {}
         }
         out
@@ -321,22 +373,42 @@ impl Gen {
                 if vs.is_empty() {
                     continue;
                 }
-                let mut arm_lists: Vec<Vec<(Pat, C)>> = vec![];
+                let mut arm_lists: Vec<Vec<Vec<(Pat, C)>>> = vec![];
                 for (ki, (_, pt)) in self.data[*d].ctors.iter().enumerate() {
-                    let mut arms = vec![];
+                    // each alternative is a list of arms that together cover constructor `ki`
+                    let mut alternatives: Vec<Vec<(Pat, C)>> = vec![];
                     for p in self.pats(ctx, pt) {
                         let full = Pat::Ctor(*d, ki, Box::new(p));
                         let ctx2 = Self::extend(ctx, &full);
                         for b in self.comps(&ctx2, ty, split[ki + 1]) {
-                            arms.push((full.clone(), b));
+                            alternatives.push(vec![(full.clone(), b)]);
                         }
                     }
-                    arm_lists.push(arms);
+                    if self.menu.nested_patterns {
+                        for group in self.nested_splits(ctx, pt) {
+                            // the arms of a split share the size budget: first arm gets the budget, others size 2
+                            let mut per_arm: Vec<Vec<(Pat, C)>> = vec![];
+                            for (gi, p) in group.iter().enumerate() {
+                                let full = Pat::Ctor(*d, ki, Box::new(p.clone()));
+                                let ctx2 = Self::extend(ctx, &full);
+                                let sz = if gi == 0 { split[ki + 1] } else { 2 };
+                                per_arm.push(self.comps(&ctx2, ty, sz).into_iter().map(|b| (full.clone(), b)).collect());
+                            }
+                            for combo in product(&per_arm) {
+                                alternatives.push(combo.clone());
+                                // and in the opposite arm order (first-match semantics)
+                                let mut rev = combo;
+                                rev.reverse();
+                                alternatives.push(rev);
+                            }
+                        }
+                    }
+                    arm_lists.push(alternatives);
                 }
                 let combos = product(&arm_lists);
                 for v in &vs {
                     for arms in &combos {
-                        out.push(C::Match(v.clone(), *d, arms.clone()));
+                        out.push(C::Match(v.clone(), *d, arms.iter().flatten().cloned().collect()));
                     }
                 }
             }
@@ -449,7 +521,7 @@ pub struct Profile {
 
 pub fn profiles(thorough: bool) -> Vec<Profile> {
     let d = if thorough { 3 } else { 2 };
-    let base = Menu { vts: vec![], datas: vec![], codatas: vec![], ints: vec![1, 2], fix: false, exec: false, redex: false, vars_per_type: 2, alias_patterns: false, default_arms: false };
+    let base = Menu { vts: vec![], datas: vec![], codatas: vec![], ints: vec![1, 2], fix: false, exec: false, redex: false, vars_per_type: 2, alias_patterns: false, default_arms: false, nested_patterns: false };
     vec![
         Profile {
             name: "functions",
@@ -474,6 +546,12 @@ pub fn profiles(thorough: bool) -> Vec<Profile> {
             menu: Menu { vts: vec![VT::Int, VT::Data(BOOL), VT::Data(OPT)], datas: vec![BOOL, OPT, NAT], default_arms: true, ints: vec![1], ..base.clone() },
             roots: vec![ret(VT::Int)],
             size: 6 + d,
+        },
+        Profile {
+            name: "nested-patterns",
+            menu: Menu { vts: vec![VT::Data(PB)], datas: vec![TWO, PB], nested_patterns: true, ints: vec![1, 2], vars_per_type: 1, ..base.clone() },
+            roots: vec![ret(VT::Int)],
+            size: 11 + d,
         },
         Profile {
             name: "recursive-data",
